@@ -4,14 +4,17 @@
     by the correspondence check of C10. Executable only. *)
 From JSL Require Import Base Instance Dstate Filters World.
 
-Inductive okind := KHist | KUnsched | KMakespan | KIdle | KRec (single : bool) | KFeat.
+(** [KRec single sub]: the user-defined recorder classes of the harness: a
+    singleton one and a non-singleton one ([single]) and, of each, a SUBCLASS
+    ([sub = true]) that adds nothing. *)
+Inductive okind := KHist | KUnsched | KMakespan | KIdle | KRec (single : bool) (sub : bool) | KFeat.
 
 Inductive obs :=
 | OHist (h : list sop)
 | OUnsched (dq : list (list (nat * nat)))
 | OMakespan (rw : list Z) (cur : Z)
 | OIdle (rw : list Z)
-| ORec (single : bool) (log : list val)
+| ORec (single : bool) (sub : bool) (log : list val)
 (* a feature observer seen only as a subscriber (non-singleton class, state not
    modelled here: FeatureObservers.v does that) *)
 | OFeat.
@@ -19,19 +22,28 @@ Inductive obs :=
 Definition kind_of (o : obs) : okind :=
   match o with
   | OHist _ => KHist | OUnsched _ => KUnsched | OMakespan _ _ => KMakespan
-  | OIdle _ => KIdle | ORec s _ => KRec s | OFeat => KFeat
+  | OIdle _ => KIdle | ORec s b _ => KRec s b | OFeat => KFeat
   end.
 Definition kind_eqb (a b : okind) : bool :=
   match a, b with
   | KHist, KHist | KUnsched, KUnsched | KMakespan, KMakespan | KIdle, KIdle => true
-  | KRec x, KRec y => Bool.eqb x y
+  | KRec x a, KRec y b => Bool.eqb x y && Bool.eqb a b
   | KFeat, KFeat => true
   | _, _ => false
   end.
 (** [_is_singleton]: the class default [True] everywhere except the
     non-singleton recorder class. *)
 Definition is_singleton (k : okind) : bool :=
-  match k with KRec s => s | KFeat => false | _ => true end.
+  match k with KRec s _ => s | KFeat => false | _ => true end.
+
+(** [isinstance(observer, cls)]: [have] is the class of the object, [want] the
+    class asked for. An object of a subclass is an instance of the base class
+    (not the other way round). *)
+Definition is_instance (want have : okind) : bool :=
+  match want, have with
+  | KRec s false, KRec s' _ => Bool.eqb s s'
+  | _, _ => kind_eqb want have
+  end.
 
 Definition pop_job (dq : list (list (nat * nat))) (j : nat) : list (list (nat * nat)) :=
   match nth_error dq j with
@@ -62,7 +74,7 @@ Definition o_update (I : instance) (fs : list fname) (d : dstate) (x : sop) (o :
                   | Some y => s_start x - s_end I y
                   | None => s_start x end in
       OIdle (rw ++ [- idle])
-  | ORec s log => ORec s (log ++ [rec_entry I fs d 0 (Some x)])
+  | ORec s b log => ORec s b (log ++ [rec_entry I fs d 0 (Some x)])
   | OFeat => OFeat
   end.
 
@@ -75,7 +87,7 @@ Definition o_reset (I : instance) (fs : list fname) (d : dstate) (o : obs) : obs
   | OUnsched _ => OUnsched (all_deques I)
   | OMakespan _ _ => OMakespan [] (makespan_code I (sched d))
   | OIdle _ => OIdle []
-  | ORec s log => ORec s (log ++ [rec_entry I fs d 1 None])
+  | ORec s b log => ORec s b (log ++ [rec_entry I fs d 1 None])
   | OFeat => OFeat
   end.
 
@@ -87,7 +99,7 @@ Definition o_construct (I : instance) (d : dstate) (k : okind) : obs :=
       OUnsched (fold_left (fun dq x => pop_job dq (s_job x)) (all_sops (sched d)) (all_deques I))
   | KMakespan => OMakespan [] (makespan_code I (sched d))
   | KIdle => OIdle []
-  | KRec s => ORec s []
+  | KRec s b => ORec s b []
   | KFeat => OFeat
   end.
 
@@ -95,7 +107,9 @@ Definition wld := world obs.
 Definition MO := M obs.
 
 (** [DispatcherObserver.__init__]: the singleton guard looks at the current
-    SUBSCRIBERS (not at every object ever created), then subscribes. *)
+    SUBSCRIBERS (not at every object ever created) for an INSTANCE of the class
+    being constructed ([isinstance(observer, self.__class__)]: an object of a
+    subclass counts), then subscribes. *)
 Definition subscribed_kinds (w : wld) : list okind :=
   flat_map (fun i => match nth_error (objs w) i with Some o => [kind_of o] | None => [] end) (subs w).
 
@@ -103,7 +117,7 @@ Definition subscribed_kinds (w : wld) : list okind :=
     still runs; the object is created but not subscribed). *)
 Definition new_observer_gen (I : instance) (k : okind) (sub : bool) : MO nat :=
   bind (@get obs) (fun w : wld =>
-  if is_singleton k && existsb (kind_eqb k) (subscribed_kinds w) then raise EValidation
+  if is_singleton k && existsb (is_instance k) (subscribed_kinds w) then raise EValidation
   else
     let i := length (objs w) in
     bind (set_objs (fun os : list obs => os ++ [o_construct I (core w) k])) (fun _ =>
@@ -120,7 +134,7 @@ Fixpoint find_sub (os : list obs) (k : okind) (allowed : option (list nat)) (ss 
   match ss with
   | [] => None
   | i :: t => match nth_error os i with
-              | Some o => if kind_eqb k (kind_of o) && cond_ok allowed i then Some i
+              | Some o => if is_instance k (kind_of o) && cond_ok allowed i then Some i
                           else find_sub os k allowed t
               | None => find_sub os k allowed t
               end
@@ -142,11 +156,12 @@ Definition enc_obs (I : instance) (d : dstate) (o : obs) : val :=
   | OMakespan rw cur =>
       VL [VI 2; vlist VI rw; VI cur; VI (match last_opt rw with Some r => r | None => 0 end)]
   | OIdle rw => VL [VI 3; vlist VI rw; VI (match last_opt rw with Some r => r | None => 0 end)]
-  | ORec s log => VL [VI 4; vbool s; VL log]
+  | ORec s _ log => VL [VI 4; vbool s; VL log]
   | OFeat => VL [VI 5]
   end.
 
 Definition dec_okind (v : val) : okind :=
   match asZ v with
-  | 0 => KHist | 1 => KUnsched | 2 => KMakespan | 3 => KIdle | 4 => KRec true | 6 => KFeat | _ => KRec false
+  | 0 => KHist | 1 => KUnsched | 2 => KMakespan | 3 => KIdle | 4 => KRec true false | 6 => KFeat
+  | 7 => KRec false true | 8 => KRec true true | _ => KRec false false
   end.
